@@ -1125,3 +1125,22 @@ package eval
 //@        (and (= (heap dyn.n) (+ (old (heap dyn.n)) 1)) (= (select (heap dyn.fn) (old (heap dyn.n))) (mapget (global builtinOperators) $op))
 //@             (= $ret0 (dynres_0_Val (mapget (global builtinOperators) $op) (old (heap dyn.n))))))
 //@   assigns dyn.* last.err
+
+// C20 — zero-divisor avoidance of the generator: / and % are applied only when no operand after the first is the
+// constant 0 (execOp would otherwise run a failing operator application and report its garbage result).
+//@ macro (NODIVOPS $l) (forall ((j Int)) (! (=> (and (<= 0 j) (< j (len $l))) (and (not (= (idx $l j) "/")) (not (= (idx $l j) "%")))) :pattern ((idx $l j))))
+//@ func GenerateRandomExpr.helper C20
+//@   binds helper GenerateRandomExpr.helper
+//@   dyncallees GenerateRandomExpr.execOp
+//@   requires [operator-pools] (and (NODIVOPS $numSafeOps) (NODIVOPS $boolMultiOps) (NODIVOPS $boolUnaryOps)
+//@        (allocated $numSafeOps) (allocated $boolMultiOps) (allocated $boolUnaryOps))
+//@   ensures [strings-frame] (forall ((r Int)) (! (=> (< r (old (next))) (= (select (heap E_string) r) (select (old (heap E_string)) r))) :pattern ((select (heap E_string) r))))
+//@   callsite [dyn:execOp:no-zero-divisor] (=> (or (= $arg0 "/") (= $arg0 "%"))
+//@        (forall ((j Int)) (=> (and (<= 1 j) (< j (len $arg1))) (not (= (idx $arg1 j) (V_int64 0))))))
+//@   loop 1 (i)
+//@     invariant [fresh-buffers] (and (fresh $childExpr) (fresh $childRes) (= (len $childExpr) $l) (= (len $childRes) $l) (<= 0 $i))
+//@     invariant [strings-frame] (forall ((r Int)) (! (=> (< r (old (next))) (= (select (heap E_string) r) (select (old (heap E_string)) r))) :pattern ((select (heap E_string) r))))
+//@   loop 2 (rangeindex)
+//@     invariant [safe-means-no-zero-so-far] (=> $safe (forall ((j Int)) (! (=> (and (<= 1 j) (<= j (+ $rangeindex 1))) (not (= (idx $childRes j) (V_int64 0)))) :pattern ((idx $childRes j)))))
+//@ func GenerateRandomExpr C20
+//@   requires [args] (not (= $random 0))
